@@ -32,6 +32,10 @@ type Cfg struct {
 	Ext      *string  `json:"ext,omitempty"`
 	Update   *bool    `json:"update,omitempty"`
 	JSON     *JSONCfg `json:"json,omitempty"`
+	// House: this Config is built from the option VALUES of the named Config (created once and
+	// reused, as a project-wide `var house = []func(*snaps.Config){...}` would be) followed by its
+	// own JSON option. Dir/Filename/Ext/Update are repeated here for the abstraction.
+	House string `json:"house,omitempty"`
 }
 
 type JSONCfg struct {
@@ -367,6 +371,9 @@ func runScenarios(sc *Scratch, d *Driver, scs []*Scenario, workers int, pool ...
 					s := scs[i]
 					r := runs[i]
 					for k, c := range resolveCfgs(s.Configs, r.Dir) {
+						if c.House != "" {
+							c.House = s.ID + "/" + c.House
+						}
 						script.Configs[s.ID+"/"+k] = c
 					}
 					h := &Hist{H: s.ID, Watch: r.Dir}
